@@ -1361,7 +1361,8 @@ func (h *c20H) baseParams(ai int) c20Params {
 		Owners: []string{c20Bech(h.owners[0])}, Assets: []string{h.env.AssetID}, Unbond: 2, MinSelf: 0, Epoch: "minute", TaskPar: []uint64{1, 1, 1, 1}}
 }
 
-// phase one with an explicitly encoded empty BlsSignature (gogoproto decodes it as a non-nil empty slice)
+// regression scenario of the repaired empty-signature defect: phase one with an explicitly encoded empty BlsSignature
+// (gogoproto decodes it as a non-nil empty slice) must be rejected and the epoch hook must run through
 func (h *c20H) directedEmptySig(alone bool) {
 	c := h.newCase()
 	c.register(0, h.owners[0], h.baseParams(0))
@@ -1381,7 +1382,7 @@ func (h *c20H) directedEmptySig(alone bool) {
 	for i := 0; i < 4; i++ {
 		c.advance(61 * time.Second)
 	}
-	c.finish("kf-C20-empty-signature-accepted")
+	c.finish("regress-C20-empty-signature")
 }
 
 // a registered operator that never opted in submits a result: it ends up in both lists
